@@ -9,6 +9,7 @@
 //!   `A0`  zero-sized                       → header 32 bytes, align 16
 //!   `A8`  8 bytes, align 8                 → header 48 bytes, align 16
 //!   `A64` 8 bytes payload, align 64        → header 128 bytes, align 64
+//!   `A256` 256 bytes, align 8             → header 288 bytes, align 16 (the header takes more than half of a minimum chunk)
 
 use std::alloc::Layout;
 use std::cell::RefCell;
@@ -221,3 +222,10 @@ macro_rules! base_type {
 base_type!(A0, "A0", #[derive(Clone, Default)] pub struct A0;);
 base_type!(A8, "A8", #[derive(Clone, Default)] pub struct A8(pub u64););
 base_type!(A64, "A64", #[derive(Clone, Default)] #[repr(align(64))] pub struct A64(pub u64););
+base_type!(A256, "A256", #[derive(Clone)] pub struct A256(pub [u64; 32]););
+
+impl Default for A256 {
+    fn default() -> Self {
+        A256([0; 32])
+    }
+}
